@@ -256,7 +256,7 @@ pub fn run_history_property<H: HB>(prop: &'static str, tier: Tier) -> Outcome {
         "C03" => (full | A_BORROWED | A_PAYLOAD, 3, if q { 2 } else { 3 }),
         "C04" => (full | A_ITER_MUT_BACK | A_ITER_MUT_FORGET | A_DRAIN_FORGET | A_CAPACITY | A_BORROWED, 3, if q { 2 } else { 3 }),
         "C11" => (A_PUSH | A_PUSH_INCDEC | A_REMOVE | A_POP | A_CHANGE, 4, 3),
-        "C12" => (A_CORE | A_PAYLOAD | A_BORROWED | A_ITER_MUT | A_RETAIN | A_CONVERT | A_EXTEND, 3, 2),
+        "C12" => (A_CORE | A_PAYLOAD | A_BORROWED | A_ITER_MUT | A_ITER_MUT_BACK | A_RETAIN | A_CONVERT | A_EXTEND | A_APPEND, 3, 2),
         _ => unreachable!(),
     };
     let prios: Vec<i32> = (0..m as i32).collect();
@@ -317,7 +317,9 @@ pub fn run_history_property<H: HB>(prop: &'static str, tier: Tier) -> Outcome {
             return out;
         }
     }
-    // E2: deep trees
+    // E2: deep trees. For C01/C02 also seeds of the OTHER kind: "conversion from the other queue kind"
+    // is in their alphabet, and a conversion bug only shows on a deep source.
+    let kinds: Vec<bool> = if matches!(prop, "C01" | "C02") { vec![false, true] } else { kinds };
     let seed_alpha = alpha & !(A_APPEND | A_CLONE | A_CAPACITY | A_PAYLOAD) | A_APPEND;
     let bin_sizes: Vec<usize> = if q { vec![7, 8] } else { vec![7, 8, 9, 10, 11, 12, 13, 14, 15] };
     for n in bin_sizes {
@@ -385,6 +387,7 @@ pub fn run_probe_property<H: HB>(prop: &'static str, tier: Tier) -> Outcome {
         _ => 0,
     });
     cfg.append_max = 2;
+    cfg.root_vec_len = 3;
     cfg.deep = false;
     let universe = cfg.universe();
     let mk = |ex: &mut Explorer<H>| {
@@ -393,23 +396,37 @@ pub fn run_probe_property<H: HB>(prop: &'static str, tier: Tier) -> Outcome {
         }
     };
     run_closed::<H>(&mut out, &format!("E1 closed ({k} items x {m} priorities) + programs from every state"), &cfg, &mk);
+    if prop == "C16" && out.violations.is_empty() {
+        // drop accounting with plain (drop-glue-free) priorities and tracked items
+        let t0 = Instant::now();
+        crate::crash::set_case(|| Case { prop: prop.into(), hasher: H::NAME.into(), double: false, root: Root::New, ops: vec![], last: None, probe: Some("drop-accounting-plain-priorities".into()), detail: String::new(), universe: vec![], aux: None, trail: vec![], params: vec![] });
+        let r = std::panic::catch_unwind(crate::probes::drop_accounting_plain);
+        let (cases, viol) = match r {
+            Ok(Ok(c)) => (c, vec![]),
+            Ok(Err(e)) => (0, vec![e]),
+            Err(e) => (0, vec![format!("panicked: {}", panic_text(&e))]),
+        };
+        let viol: Vec<Case> = viol.into_iter().map(|e| Case { prop: prop.into(), hasher: H::NAME.into(), double: e.starts_with("Double"), root: Root::New, ops: vec![], last: None, probe: Some("drop-accounting-plain-priorities".into()), detail: e, universe: vec![], aux: None, trail: vec![], params: vec![] }).collect();
+        absorb_post(&mut out, "drop accounting: queues of 0..6 tracked items with i32 priorities (no drop glue) x clear / drain (consumed j, dropped or leaked) / retain none / pop all / into_iter / into_sorted_iter / append+clear / clone: every item dropped exactly once", cases, viol, t0, json!({}));
+    }
     if !out.violations.is_empty() || prop == "C16" && q {
         return out;
     }
-    if prop == "C06" {
-        // deep trees one operation away from a seed (remove / change / push / pop / conversion),
-        // then sorted consumption with the structured program family
-        for n in if q { vec![6usize, 7, 8, 16, 17] } else { vec![6, 7, 8, 9, 10, 15, 16, 17, 31, 32, 33] } {
+    if prop == "C06" || prop == "C13" {
+        // deep trees one operation away from a seed (remove / change / push / pop / conversion /
+        // extend on both strategies / append), then the iterator programs (structured family)
+        let dname = if prop == "C06" { "C06d" } else { "C13d" };
+        for n in if q && prop == "C13" { vec![8usize, 16] } else if q { vec![6usize, 7, 8, 16, 17] } else { vec![6, 7, 8, 9, 10, 15, 16, 17, 31, 32, 33] } {
             let mut c = seeds_cfg(prop, n, &REL_BIN, A_REACH | A_EXTEND | A_APPEND | A_PUSH_INCDEC);
             c.deep = false;
             let seeds = if n <= 8 { f_bin(n) } else if q || n > 17 { f_struct(n) } else { f_seg(n) };
             let uni = c.universe();
             let mk = |ex: &mut Explorer<H>| {
-                for p in crate::probes::all_probes::<H>("C06d", &uni[..3]) {
+                for p in crate::probes::all_probes::<H>(dname, &uni[..3]) {
                     ex.probes.push(p);
                 }
             };
-            run_seeds::<H>(&mut out, &format!("E2 seeds of {n} elements, every operation (depth 1), sorted programs from every resulting state"), &c, seeds, 1, &mk);
+            run_seeds::<H>(&mut out, &format!("E2 seeds of {n} elements, every operation (depth 1), iterator programs from every resulting state"), &c, seeds, 1, &mk);
             if !out.violations.is_empty() {
                 return out;
             }
@@ -811,7 +828,7 @@ pub fn run_c14<H: HB>(tier: Tier) -> Outcome {
     let (k, m) = if q { (4u32, 2i32) } else { (4, 3) };
     let prios: Vec<i32> = (0..m).collect();
     let t0 = Instant::now();
-    let mut cfg = base_cfg(prop, k, &prios, A_REACH | A_CLONE | A_CAPACITY | A_RETAIN | A_ITER_MUT);
+    let mut cfg = base_cfg(prop, k, &prios, A_REACH | A_CLONE | A_CAPACITY | A_RETAIN | A_ITER_MUT | A_ITER_MUT_BACK);
     cfg.root_vec_len = if q { 2 } else { 1 };
     cfg.deep = false;
     cfg.merge_check |= !q;
@@ -998,6 +1015,25 @@ pub fn run_c17<H: HB>(tier: Tier) -> Outcome {
         if !out.violations.is_empty() {
             return out;
         }
+        let t0 = Instant::now();
+        let seeds: Vec<Root> = if q { f_bin(8).into_iter().step_by(5).collect() } else { f_bin(8).into_iter().chain(f_seg(16)).chain(f_struct(33)).collect() };
+        let th = threads();
+        let (cases, viol) = crate::post::par_each(seeds.len() * 2, th, |i| {
+            let d = i % 2 == 1;
+            let Root::FromVec(pairs) = &seeds[i / 2] else { return Ok(0) };
+            let mk_case = |e: String| Case { prop: prop.into(), hasher: H::NAME.into(), double: d, root: seeds[i / 2].clone(), ops: vec![], last: None, probe: Some("extend-twin".into()), detail: e, universe: vec![], aux: None, trail: vec![], params: vec![] };
+            crate::crash::set_case(|| mk_case(String::new()));
+            let r = std::panic::catch_unwind(|| if d { extend_twin::<DPQ<H>>(pairs) } else { extend_twin::<PQ<H>>(pairs) });
+            match r {
+                Ok(Ok(c)) => Ok(c),
+                Ok(Err(e)) => Err(mk_case(e)),
+                Err(e) => Err(mk_case(format!("panicked: {}", panic_text(&e)))),
+            }
+        });
+        absorb_post(&mut out, "extend twin: receivers of 8 (16, 33) elements with ties x capacity call x large extends x hints: contents and extraction order (ties included) as on the untouched queue", cases, viol, t0, json!({"receivers": seeds.len()}));
+        if !out.violations.is_empty() {
+            return out;
+        }
     }
     for n in if q { vec![8usize, 16] } else { vec![7, 8, 9, 16, 17, 33] } {
         let mut c = seeds_cfg(prop, n, &REL_BIN, A_CAPACITY | A_CAPACITY_HUGE | A_POP | A_PUSH);
@@ -1015,6 +1051,10 @@ pub fn run_c17<H: HB>(tier: Tier) -> Outcome {
 /// C17: a fully enumerated grid of (history shape, length, amount, call): queues grown by pushes
 /// (so that the three internal tables have their natural, different capacities), optionally
 /// shrunk and pushed again, then every reservation call with every amount 0..=A.
+pub fn replay_extend_twin(double: bool, pairs: &[Pair]) -> Result<(), String> {
+    if double { extend_twin::<DPQ<FnvBuild>>(pairs).map(|_| ()) } else { extend_twin::<PQ<FnvBuild>>(pairs).map(|_| ()) }
+}
+
 pub fn replay_alloc_failure(double: bool) -> Result<(), String> {
     let r = if double { alloc_failure_grid::<DPQ<FnvBuild>>() } else { alloc_failure_grid::<PQ<FnvBuild>>() };
     r.map(|_| ()).map_err(|e| e.1)
@@ -1142,6 +1182,41 @@ fn alloc_failure_grid<Q: QueueLike>() -> Result<u64, (Vec<Op>, String)> {
                         }
                         step(&mut q, &Op::PopHi, &mut mm, &mut un).map_err(|e| (h2.clone(), format!("pop after a failed {op:?}: {e}")))?;
                     }
+                }
+            }
+        }
+    }
+    Ok(cases)
+}
+
+/// C17: a capacity call before a large extend must not change anything observable afterwards,
+/// tie order included (which internal strategy extend picks may not depend on capacity).
+fn extend_twin<Q: QueueLike>(seed: &[Pair]) -> Result<u64, String> {
+    use crate::probes::drain_order;
+    let mut cases = 0;
+    let base = Q::q_from_vec(seed.iter().map(|&p| mk(p)).collect());
+    let n = seed.len() as u32;
+    let mut seqs = long_seqs(n, &[10, 20]);
+    seqs.push((0..100u32).map(|i| (n + i, 0, if i % 3 == 0 { 20 } else { 10 })).collect());
+    seqs.push((0..9u32).map(|i| (n + i, 0, 20)).collect());
+    for cap in [Op::Reserve(1000), Op::ReserveExact(500), Op::TryReserve(300), Op::ShrinkToFit, Op::Reserve(17)] {
+        for seq in &seqs {
+            for hint in [Hint { lo: seq.len(), hi: Some(seq.len()) }, Hint { lo: seq.len(), hi: None }, Hint { lo: 0, hi: None }] {
+                cases += 1;
+                let mut a = base.clone();
+                let mut b = base.clone();
+                let mut ma = model_of(&a.snap());
+                let mut mb = ma.clone();
+                let (mut ua, mut ub) = (false, false);
+                step(&mut b, &cap, &mut mb, &mut ub)?;
+                let op = Op::Extend(seq.clone(), hint);
+                step(&mut a, &op, &mut ma, &mut ua)?;
+                step(&mut b, &op, &mut mb, &mut ub).map_err(|e| format!("after {cap:?}: {e}"))?;
+                if model_of(&a.snap()) != model_of(&b.snap()) {
+                    return Err(format!("after {cap:?}, extend of {} pairs (hint {hint:?}) gives different contents than on the untouched queue", seq.len()));
+                }
+                if drain_order(&a, true) != drain_order(&b, true) || (Q::DOUBLE && drain_order(&a, false) != drain_order(&b, false)) {
+                    return Err(format!("after {cap:?}, extend of {} pairs (hint {hint:?}) on {:?} gives a different order of extraction than on the untouched queue (ties are resolved differently: the strategy chosen by extend depends on the capacity)", seq.len(), seed));
                 }
             }
         }
